@@ -295,6 +295,49 @@ func propC03(o *out, r *rng, thorough bool) {
 		addParseExprCase(o, w, nil)
 		o.count("nested-parens")
 	}
+	// staircases: one operator of every level in every order (the insertion loop walks down a right spine whose
+	// length is the number of levels), and every operator of the two tightest levels on the last step
+	{
+		lv := [][]string{{"OR"}, {"AND"}, {"=", "!=", "<", "<=", ">", ">="}, {"+", "-", "|", "^"}, {"*", "/", "%", "&"}}
+		atoms := []string{"a", "b", "c", "d", "e", "f", "g"}
+		emit := func(ops []string) {
+			var b strings.Builder
+			b.WriteString(atoms[0])
+			for i, op := range ops {
+				b.WriteString(" " + op + " " + atoms[(i+1)%len(atoms)])
+			}
+			w := b.String()
+			c03One(o, chain{text: w, ops: nil, rands: []operand{{w, nil, "staircase"}}}, "staircase")
+			addParseStmtCase(o, "SELECT v FROM m WHERE "+w, nil)
+			addParseStmtCase(o, "SELECT v FROM m WHERE ("+w+")", nil)
+		}
+		var perm func(cur []int, used int)
+		perm = func(cur []int, used int) {
+			if len(cur) == 5 {
+				ops := make([]string, 5)
+				for i, l := range cur {
+					ops[i] = lv[l][0]
+				}
+				emit(ops)
+				emit(append(append([]string{}, ops...), ops[0], ops[4]))
+				return
+			}
+			for l := 0; l < 5; l++ {
+				if used&(1<<l) == 0 {
+					perm(append(cur, l), used|1<<l)
+				}
+			}
+		}
+		perm(nil, 0)
+		for _, c := range lv[2] {
+			for _, a := range lv[3] {
+				for _, m := range lv[4] {
+					emit([]string{"OR", "AND", c, a, m})
+					emit([]string{m, a, c, "AND", "OR"})
+				}
+			}
+		}
+	}
 	// the literal -1 is how a sign is stored: a written -1 in every operand position must not be taken for one
 	for _, op1 := range []string{"=", "+", "-", "*", "/", "%", "AND", "<", "|", "^"} {
 		for _, op2 := range []string{"+", "-", "*", "/", "%", "&", "<", "OR"} {
